@@ -8,3 +8,5 @@ pub mod model;
 pub mod props;
 pub mod spell;
 pub mod util;
+
+include!(concat!(env!("OUT_DIR"), "/srcdict.rs"));
